@@ -332,6 +332,56 @@ fn strings(ctx: &mut Ctx, astral_samples: usize) {
     ctx.rng = rng;
 }
 
+/// strings assembled from raw characters of every class and escapes in every position; the
+/// expected value is known from the pieces
+fn mixed_strings(ctx: &mut Ctx, n: usize) {
+    let mut rng = ctx.rng.clone();
+    let raw: Vec<char> = "a Z9_-+*/.,;:!?()[]{}<>=&|^%@#$~`'\t\n\r\u{a0}éßÿĀαжא中日本\u{301}\u{200d}\u{2028}\u{feff}\u{fffd}\u{1F600}\u{10FFFF}\u{e000}\u{d7ff}\0\u{7f}".chars().collect();
+    let escapes: [(&str, char); 6] = [("\\n", '\n'), ("\\r", '\r'), ("\\t", '\t'), ("\\\\", '\\'), ("\\'", '\''), ("\\\"", '"')];
+    for _ in 0..n {
+        let len = 1 + rng.below(12);
+        let mut text = String::from("\"");
+        let mut want = String::new();
+        let mut has_escape = false;
+        let mut non_ascii_before_escape = false;
+        for _ in 0..len {
+            match rng.below(5) {
+                0 | 1 | 2 => {
+                    let c = raw[rng.below(raw.len())];
+                    text.push(c);
+                    want.push(c);
+                }
+                3 => {
+                    let (e, c) = escapes[rng.below(escapes.len())];
+                    if !has_escape && !want.is_ascii() {
+                        non_ascii_before_escape = true;
+                    }
+                    has_escape = true;
+                    text.push_str(e);
+                    want.push(c);
+                }
+                _ => {
+                    let c = raw[rng.below(raw.len())];
+                    if !has_escape && !want.is_ascii() {
+                        non_ascii_before_escape = true;
+                    }
+                    has_escape = true;
+                    let w = 1 + rng.below(6);
+                    let hex = format!("{:0w$x}", c as u32, w = w);
+                    text.push_str(&format!("\\u{{{}}}", if rng.chance(1, 2) { hex.to_uppercase() } else { hex }));
+                    want.push(c);
+                }
+            }
+        }
+        text.push('"');
+        if non_ascii_before_escape {
+            ctx.hit("strings:non-ascii-before-first-escape");
+        }
+        check_literal(ctx, &text, &Want::Val(Value::String(want)), "string-mixed-raw-and-escapes");
+    }
+    ctx.rng = rng;
+}
+
 /// keyword / identifier / literal-shaped collisions: judged by the reference lexer+parser
 fn words(ctx: &mut Ctx) {
     let mut ws: Vec<String> = vec![];
@@ -370,14 +420,14 @@ fn words(ctx: &mut Ctx) {
                     ctx.hit(if accepted { "words:accepted" } else { "words:rejected" });
                     ctx.sample("keyword-identifier-collisions", || json!({"text": text, "accepted": accepted}));
                 }
-                Outcome::Open => {}
+                Outcome::Open | Outcome::AgreeAmbiguous { .. } => {}
                 Outcome::Mismatch { class, detail } => ctx.violation(format!("C08 word-lexing {class}"), format!("a word was lexed differently from longest-match / exact-keyword rules: {text}"), json!({"text": text, "detail": clip(detail, 800)})),
             }
         }
     }
 }
 
-const SEPARATORS: [&str; 12] = [" ", "\t", "\n", "\r\n", "\u{a0}", "\u{2028}", "// c\n", "//\r\n", "  \n\t ", "// a // b\n\n", "\u{3000}", "\u{85}"];
+const SEPARATORS: [&str; 17] = [" ", "\t", "\n", "\r\n", "\u{a0}", "\u{2028}", "// c\n", "//\r\n", "  \n\t ", "// a // b\n\n", "\u{3000}", "\u{85}", "\r", "// c\r", "//\r", "\u{c}", "// é \"q\" \\\n"];
 
 fn layout(ctx: &mut Ctx, n: usize) {
     let pool = pool();
@@ -455,6 +505,7 @@ fn run(ctx: &mut Ctx) {
     floats(ctx, ctx.tier.of(1_500, 40_000));
     decimals(ctx, ctx.tier.of(6_000, 150_000));
     strings(ctx, ctx.tier.of(3_000, 60_000));
+    mixed_strings(ctx, ctx.tier.of(2_000, 40_000));
     words(ctx);
     layout(ctx, ctx.tier.of(6_000, 60_000));
 }
@@ -468,13 +519,13 @@ fn finish(m: &Merged, tier: Tier) -> Finish {
     };
     let need = [
         ("int-decimal", 500), ("int-hex", 200), ("int-octal", 200), ("int-binary", 200), ("int-out-of-range", 5), ("float-shortest", 500), ("float-scientific", 500), ("float-exact-expansion", 100),
-        ("decimal-scale-preserved", tier.of(5_000, 50_000)), ("decimal-beyond-scale-28", 100), ("string-raw-bmp", 3_900), ("string-unicode-escape", 1_000), ("string-escape", 6), ("keyword-identifier-collisions", 3_000), ("layout", tier.of(50_000, 500_000)),
+        ("decimal-scale-preserved", tier.of(5_000, 50_000)), ("decimal-beyond-scale-28", 100), ("string-raw-bmp", 3_900), ("string-unicode-escape", 1_000), ("string-escape", 6), ("string-mixed-raw-and-escapes", 10_000), ("keyword-identifier-collisions", 3_000), ("layout", tier.of(50_000, 500_000)),
     ];
     for (fam, min) in need {
         f.floors.push(floor(format!("family {fam}: {} (floor {min})", m.c(&format!("family:{fam}"))), m.c(&format!("family:{fam}")) >= min as u64));
     }
     let seps = m.prefix_count("layout:sep:");
-    f.floors.push(floor(format!("separator kinds used: {seps}/12, token pairs joined by nothing: {}", m.c("layout:no-separator")), seps == 12 && m.c("layout:no-separator") >= 1_000));
+    f.floors.push(floor(format!("separator kinds used: {seps}/17, token pairs joined by nothing: {}", m.c("layout:no-separator")), seps == 17 && m.c("layout:no-separator") >= 1_000));
     f.extras.insert("families".into(), json!(m.prefix_map("family:")));
     f.extras.insert("layout".into(), json!(m.prefix_map("layout:")));
     f.extras.insert("words".into(), json!(m.prefix_map("words:")));
